@@ -24,6 +24,15 @@
 //	        every case; the direct oracle reads this one)
 //	tag     generator name and, when known by construction, the expected outcome
 //
+// Which lines give TEXT to the model's JSON parser: V and J lines (hp, pp: the
+// decoded header / payload bytes) and I lines (the JWK set text).  E and X
+// lines do not (E: the model prints and reparses its own text; X: jwk= is a
+// comparison of parsed values); the text Tink produces for them travels on the
+// accompanying lines the generator emits: etok-* (a V line with the token the
+// real encoder made of the E case) and xtext-* (an I line with the text
+// JWKSetFromPublicKeysetHandle emitted for the X keyset).  -0 and 0 are
+// identified on both sides (json.go canonNumber; coq/model/Json.v).
+//
 //	C09|X|..., C09|I|...   JWK export / import on key material: see jwk.go
 //
 // Observation: badopts | rej | ok typ=..;iss=..;sub=..;jti=..;aud=..;exp=..;nbf=..;iat=..;pl=<canonical payload>
